@@ -143,7 +143,7 @@ theorem expr_parse_print (e : Expr) (hwf : e.wf = true) (rbp : Nat) (rest : List
     operators `-` `!` `*` `<-`, references `&e`, force `e!`, all 19 binary operators at all precedence
     levels with their associativity (including right-associative `??` and `>>` lexed as two `>`), the
     casts `as` `as?` `as!` with (resource) type annotations over the type sub-language, the conditional,
-    member access `.` / `?.` and indexing — arbitrarily nested, with the printer's parenthesisation
+    member access `.` / `?.`, indexing and invocation with (labelled) arguments — arbitrarily nested, with the printer's parenthesisation
     rules (`parenthesizedExpressionDoc`, `BinaryExpression.Doc`, the integer-receiver rule) against
     the parser's binding powers, via the regenerated tables.  `printE` is the printed token list as the
     lexer sees it (`& &` merged to `&&`).
@@ -155,8 +155,7 @@ theorem expr_parse_print (e : Expr) (hwf : e.wf = true) (rbp : Nat) (rest : List
     speculation after `<` is outside the port).
 
     `_partial` because the fragment `Expr` is not the whole expression language.  NOT in the port and
-    therefore covered by the stream only (Go-only oracle): invocation (with type arguments / labels),
-    array, dictionary, string and string-template literals, paths, `create` / `destroy` / `attach`,
+    therefore covered by the stream only (Go-only oracle): type arguments of invocations, array, dictionary, string and string-template literals, paths, `create` / `destroy` / `attach`,
     function expressions; statements and declarations (`stmt_decl_roundtrip`: CC only). -/
 theorem expr_roundtrip_partial (e : Expr) (h : e.wf = true) : parseAll (printE e) = some e :=
   Verif.Proofs.PrattAmp.expr_roundtrip e h
@@ -169,6 +168,12 @@ example : (Expr.cond (.binary .coalesce (.member true (.force (.ident "a")) "m")
 example : lexemes (printE (.binary .coalesce (.member true (.force (.ident "a")) "m")
       (.binary .coalesce (.index (.ident "b") (.int true "1")) (.unary .move (.ident "c"))))) =
     ["a", "!", "?.", "m", "??", "b", "[", "-", "1", "]", "??", "<-", "c"] := by decide
+example : (Expr.invoke (.member false (.ident "a") "f")
+    (.argsCons "" (.binary .add (.ident "x") (.int false "1")) (.argsCons "to" (.unary .move (.ident "r")) .argsNil))).wf = true := by
+  decide
+example : lexemes (printE (.invoke (.member false (.ident "a") "f")
+    (.argsCons "" (.binary .add (.ident "x") (.int false "1")) (.argsCons "to" (.unary .move (.ident "r")) .argsNil)))) =
+    ["a", ".", "f", "(", "x", "+", "1", ",", "to", ":", "<-", "r", ")"] := by decide
 /-- the recorded findings are outside the domain -/
 example : (Expr.ref (.ref (.ident "x"))).wf = false := by decide
 example : (Expr.binary .gt (.binary .lt (.ident "a") (.ident "b")) .void).wf = false := by decide
